@@ -271,21 +271,20 @@ func (s *Sim) FetchNs(u, w int, ns *table.NeighborState) {
 	s.Settle()
 }
 
-// Dead: u stops hearing from w; the dead interval elapses for w only; the dead check runs.
-func (s *Sim) Dead(u, w int, faces func(x int) (uint64, bool)) bool {
+// Dead: u stops hearing from w; the dead interval elapses for w only (every other neighbor of u
+// keeps pinging on its current face); the dead check runs. wName may be any router name.
+func (s *Sim) Dead(u int, wName enc.Name) bool {
 	nu := s.Nodes[u]
 	nt := nu.R.VerifNeighbors()
-	if nt.Get(s.Nodes[w].Name) == nil {
+	if nt.Get(wName) == nil {
 		return false
 	}
 	time.Sleep(nu.Cfg.RouterDeadInterval() + time.Millisecond)
 	for _, ns := range nt.GetAll() {
-		x := s.IdxOfName(ns.Name)
-		if x == w || x < 0 {
+		if ns.Name.Equal(wName) {
 			continue
 		}
-		f, act := faces(x)
-		ns.RecvPing(f, act) // same face: only refreshes lastSeen
+		ns.RecvPing(ns.VerifFaceId(), false) // same face: only refreshes lastSeen
 	}
 	nu.R.VerifCheckDeadNeighbors()
 	s.Settle()
